@@ -55,6 +55,9 @@ pub struct Stack {
     server_addr: SocketAddr,
     down: UdpSocket, // the address clients talk to (listed in their tokens)
     clients: BTreeMap<u64, Cli>,
+    /// netcode client id of a harness client when it differs from its own number (cfg "alias": two clients holding tokens
+    /// for ONE client id, from different addresses)
+    alias: BTreeMap<u64, u64>,
     intern: HashMap<Vec<u8>, i64>,
     stime: u64,
 }
@@ -103,11 +106,20 @@ impl Stack {
         };
         let transport = NetcodeServerTransport::new(sc, server_socket).expect("server transport");
         let mut clients = BTreeMap::new();
+        let mut alias = BTreeMap::new();
+        if let Some(m) = cfg.get("alias").and_then(|a| a.as_object()) {
+            for (k, v) in m {
+                if let (Ok(k), Some(v)) = (k.parse::<u64>(), v.as_u64()) {
+                    alias.insert(k, v);
+                }
+            }
+        }
         for c in cfg["clients"].as_array().cloned().unwrap_or_default() {
             let id = c.as_u64().unwrap_or(1);
+            let netid = *alias.get(&id).unwrap_or(&id);
             let sock = UdpSocket::bind("127.0.0.1:0").expect("bind");
             let addr = sock.local_addr().unwrap();
-            let token = ConnectToken::generate(Duration::ZERO, PROTO, 300, id, geti(cfg, "timeout_s").max(1) as i32, vec![down.local_addr().unwrap()], None, &KEY)
+            let token = ConnectToken::generate(Duration::ZERO, PROTO, 300, netid, geti(cfg, "timeout_s").max(1) as i32, vec![down.local_addr().unwrap()], None, &KEY)
                 .expect("token");
             let t = NetcodeClientTransport::new(Duration::ZERO, ClientAuthentication::Secure { connect_token: token }, sock).expect("client transport");
             clients.insert(
@@ -130,9 +142,14 @@ impl Stack {
             server_addr,
             down,
             clients,
+            alias,
             intern: HashMap::new(),
             stime: 0,
         }
+    }
+
+    fn netid(&self, c: u64) -> u64 {
+        *self.alias.get(&c).unwrap_or(&c)
     }
 
     fn cstatus(&self, id: u64) -> Value {
@@ -155,12 +172,14 @@ impl Stack {
     fn sview(&mut self) -> Value {
         let mut ids = self.server.clients_id();
         ids.sort();
-        let mut nids: Vec<u64> = self.clients.keys().copied().filter(|id| self.transport.client_addr(*id).is_some()).collect();
+        let mut nids: Vec<u64> = self.clients.keys().map(|c| self.netid(*c)).filter(|id| self.transport.client_addr(*id).is_some()).collect();
         nids.sort();
-        // a netcode id must map to the upstream socket of that very client
-        let addr_ok = nids
-            .iter()
-            .all(|id| self.transport.client_addr(*id) == self.clients.get(id).and_then(|c| c.up.local_addr().ok()));
+        nids.dedup();
+        // a netcode id must map to the upstream socket of a client that holds a token for that id
+        let addr_ok = nids.iter().all(|id| {
+            let a = self.transport.client_addr(*id);
+            self.clients.iter().any(|(c, cl)| self.netid(*c) == *id && cl.up.local_addr().ok() == a)
+        });
         let mut evs = vec![];
         while let Some(e) = self.server.get_event() {
             evs.push(match e {
@@ -362,8 +381,8 @@ impl<W: Write> StackRunner<W> {
                 let dir = gets(st, "dir").to_string();
                 // a message counts as submitted only if the sending endpoint exists and is not disconnected
                 let ok = if dir == "sc" {
-                    let ok = w.server.is_connected(id);
-                    w.server.send_message(id, ch, Bytes::from(bytes));
+                    let ok = w.server.is_connected(w.netid(id));
+                    w.server.send_message(w.netid(id), ch, Bytes::from(bytes));
                     ok
                 } else if let Some(c) = w.clients.get_mut(&id) {
                     let ok = !c.renet.is_disconnected();
@@ -380,7 +399,7 @@ impl<W: Write> StackRunner<W> {
                 for ch in [0u8, 1, 2] {
                     loop {
                         let m = if dir == "cs" {
-                            w.server.receive_message(id, ch)
+                            w.server.receive_message(w.netid(id), ch)
                         } else {
                             w.clients.get_mut(&id).and_then(|c| c.renet.receive_message(ch))
                         };
@@ -397,9 +416,9 @@ impl<W: Write> StackRunner<W> {
             "disc" => {
                 let who = gets(st, "who").to_string();
                 // a server side disconnect of an id the message layer does not list is a no-op: there is no session to end
-                let ok = who != "server" || w.server.is_connected(id);
+                let ok = who != "server" || w.server.is_connected(w.netid(id));
                 match who.as_str() {
-                    "server" => w.server.disconnect(id),
+                    "server" => w.server.disconnect(w.netid(id)),
                     "client" => {
                         if let Some(c) = w.clients.get_mut(&id) {
                             c.renet.disconnect()
